@@ -20,7 +20,8 @@ FIX_COMMITS = ["d6ae502 (passive start-up cancellation: port/listener leak)",
                "f70594b (pipelined USER/PASS overlapped with later commands when the user manager suspends)",
                "ec756de (data connection accepted during session teardown never closed)",
                "732de19 (Throttle.wait helper tasks outlived a cancelled transfer / Server.close())",
-               "5b1a18b (LIST line without a name silently dropped as a '.' entry)"]
+               "5b1a18b (LIST line without a name silently dropped as a '.' entry)",
+               "e5905ae (QUIT from a peer that does not read held the session for ever)"]
 
 # dimensions added after the fourth wave of seeded changes (plug-in APIs as part of the input space)
 EXTRA = {
@@ -50,7 +51,8 @@ EXTRA = {
            "the cut itself.",
     "C14": " Also with a second data connection opened in advance for the next transfer just before the ABOR, and that "
            "transfer then run without a new PASV.",
-    "C16": " Also with a user manager whose logout notification takes 5 s: the sockets must still be released at the bound.",
+    "C16": " Also with a user manager whose logout notification takes 5 s: the sockets must still be released at the bound; "
+           "and sessions that end with QUIT (alone or pipelined behind other commands) from a peer that does not read.",
     "C17": " Every backend call on a session's own directory must come from the PathIO instance created for that session's "
            "Connection (custom backends read it).",
     "C18": " Including uploads sent in two pieces with an MLST of the same file between them.",
